@@ -86,6 +86,16 @@ def impl(case):
     if k == 1701:
         if obj is not None:
             st, v = call_impl(obj.xy, np.array([a[1][0] * call["nc"] + a[2][0]]))
+            # the xy= interface of the methods looks the returned centres up again: one, two and three points (round-5
+            # seed: exactly two points were read as one transposed pair); every cell of this raster is a pit
+            i0, nn = a[1][0] * call["nc"] + a[2][0], call["nr"] * call["nc"]
+            for cells in ([i0], [i0, (i0 * 3 + 1) % nn], [(i0 * 3 + 1) % nn, i0, (i0 + 2) % nn]):
+                if st != "ok":
+                    break
+                st1, pts = call_impl(obj.xy, np.array(cells))
+                st2, sn = call_impl(obj.snap, xy=pts) if st1 == "ok" else (st1, None)
+                if st2 != "ok" or [int(x) for x in sn[0]] != cells:
+                    return [[-2], [f"snap(xy=xy({cells})) -> {st2} {None if st2 != 'ok' else [int(x) for x in sn[0]]}"]]
         else:
             st, v = call_impl(g.xy, tr, np.array([a[1][0]]), np.array([a[2][0]]))
         return [_fq(v[0][0]) + _fq(v[1][0])] if st == "ok" else [[-2], [st]]
